@@ -324,3 +324,18 @@ func init() {
 		},
 	})
 }
+
+func init() {
+	register(&Property{
+		ID:    "C27",
+		Units: []string{"fasthttp.(*URI).Parse", "fasthttp.(*URI).parse", "fasthttp.splitHostURI", "fasthttp.parseHost", "fasthttp.unescape", "fasthttp.shouldEscape", "fasthttp.validateIPv6Literal", "fasthttp.parseIPv6Hextets", "fasthttp.validIPv4", "fasthttp.normalizePath", "fasthttp.(*URI).FullURI", "fasthttp.(*URI).AppendBytes", "fasthttp.(*URI).RequestURI", "fasthttp.appendQuotedPath", "fasthttp.(*Args).ParseBytes", "fasthttp.(*Args).AppendBytes", "fasthttp.isValidScheme", "fasthttp.validUserinfo", "net/url.Parse", "net/url.parse", "net/url.parseAuthority", "net/url.parseHost", "net/url.unescape", "net/url.getScheme"},
+		Runs: []Run{
+			{Pkg: "fasthttp", Func: "vhC27RoundTrip", Quick: map[string]int{"tailLen": 2}, Thorough: map[string]int{"tailLen": 3}, PathCap: 1500000},
+			{Pkg: "fasthttp", Func: "vhC27NetURL", Quick: map[string]int{"tailLen": 2}, Thorough: map[string]int{"tailLen": 3}, PathCap: 1500000},
+		},
+		Assume: []string{
+			"input family: one of 12 (round trip) / 9 (net/url) prefixes covering scheme spellings, empty and non-empty hosts, userinfo, an IPv6 literal, a port, and positions inside path / query / fragment / a percent escape, followed by ≤ tailLen arbitrary bytes; the property's own exclusion (decoded host contains '%') is assumed",
+			"net/url.Parse is interpreted from the standard library's own SSA on the same symbolic input (no model of it); longer free tails, userinfo serialisation (FullURI does not emit it) and DisablePathNormalizing are outside this check",
+		},
+	})
+}
